@@ -112,6 +112,18 @@ CLAIMED = {
             "copy, loaded, round-tripped, and the typed helpers' definitions and parameter kinds/values are compared with the files.",
             "No lowering functions; byte identity and helper/definition agreement are binding checks on repository artefacts.",
             "DESIGN.md §5 C10"),
+    "C01": ("TLA+ spec HugrValidity.tla (transcription of the reference validator, split into Builder / User obligations) evaluated "
+            "by TLC on the raw wire documents emitted by the real builders (C->S): captured repository test programs + seeded random "
+            "well-formed programs",
+            "TLC reads the documents exactly as the implementation wrote them and evaluates User(d) => Builder(d) (allowed children, "
+            "IO/entry/exit/case positions and rows, port counts, kind and type at both ends of every edge, order edge for every Ext wire, "
+            "no value edge into a function body, Dom edges, CFG successor rows, constants inhabit their type; acyclicity, dominance, "
+            "linearity and input connectivity as the premise). Inputs: every document the repository's builder tests send to "
+            "`hugr validate` (42, calibration) and 250 (quick) / 3000 random programs over all builder entry points of C01. Corrupted "
+            "documents must be rejected on the expected clause.",
+            "The generator satisfies the premise by construction; extension-requirement inference and OpDef instantiation are not modelled; "
+            "an exhaustive HugrBuilder state-space leg is added by harness/props/builder_model.py when present (see evidence legs).",
+            "DESIGN.md §5 C01"),
 }
 
 NOT_YET = "check not built yet in this round (planned: see DESIGN.md §5); nothing is claimed for it until its TLA+ spec and conformance legs exist"
